@@ -331,11 +331,111 @@ def fn_history(rng: random.Random):
     return ops[:40]
 
 
+HEAVY_SHAPES = ["paren", "list", "tern", "call", "index", "map", "macro"]
+LIGHT_SHAPES = ["neg", "not", "chain", "and", "or", "dots"]
+DEEP_LADDER = [8, 13, 20, 33, 52, 84, 134]
+
+
+def deep_history(rng: random.Random, shape: Optional[str] = None):
+    """Resource boundary: one expression shape nested to a geometric ladder of depths (ratio 1.6, 8 … ~210 levels, so that
+    any change of a recursion/nesting limit by a factor >= 1.6 puts a depth between the old and the new boundary), built and
+    evaluated on an environment of one runner class before any other environment exists, on an environment of the other
+    class, on a third environment created after both, and again on the first.  Whether a depth works (value) or not
+    (RecursionError, SyntaxError of the transpiled text, …) must be the same as alone in a fresh process, wherever it
+    happens in the history."""
+    shape = shape or (rng.choice(HEAVY_SHAPES) if rng.random() < 0.85 else rng.choice(LIGHT_SHAPES))
+    u = 1.0 + 0.6 * rng.random()
+    ladder = [int(d * u) for d in DEEP_LADDER]
+    if shape in LIGHT_SHAPES:
+        ladder = [d * 3 for d in ladder[1:]]
+    leaf = rng.choice(["x", "1 + x", "x"])
+    k0 = rng.choice("CI")
+    kinds = [k0, "I" if k0 == "C" else "C", k0 if rng.random() < 0.7 else rng.choice("CI")]
+    b = [["x", ["i", rng.choice([1, 2, 3])]]]
+    ops: List[Any] = []
+    na = 0
+    first: List[int] = []
+    for e, k in enumerate(kinds):
+        ops.append(["E", k, None, []])
+        for d in ladder:
+            ops += [["P", e, {"deep": [shape, d, leaf]}], ["G", e, na], ["V", na, b]]
+            if e == 0:
+                first.append(na)
+            na += 1
+    for p in first:
+        ops.append(["V", p, b])
+    return ops
+
+
+# (family, text); `probe` is the host function, `{r}` what it is compared with
+OUTER_T = [("and", "probe(x) == {r} && x == 1"), ("and", "probe(x) == {r} && x == 1 && x < 5"), ("and", "x == 1 && probe(x) == {r}"),
+           ("or", "probe(x) == {r} || x == 2"), ("or", "probe(x) == {r} || x == 2 || x == 1"),
+           ("cond", "probe(x) == {r} ? x : 7"), ("cond", "x == 1 ? probe(x) : x + 7"),
+           ("map", "[1, 2].map(i, i + probe(x))"), ("map", "[1, 2].map(i, probe(i) + x)"),
+           ("exists", "[1, 2].exists(i, probe(i) == {r} && i == x)"), ("all", "[1, 2].all(i, probe(i) == {r} || i == x)"),
+           ("filter", "[1, 2, 3].filter(i, probe(i) == {r} && i >= x).size()"),
+           ("plain", "probe(x) + x"), ("and", "[probe(x), x].size() == 2 && x == 1")]
+INNER_T = {"and": ["false && y == 2", "y == 2 && z == 3", "x == 2 && y == 2"], "or": ["y == 5 || z == 3", "y == 2 || z == 9"],
+           "cond": ["y > 0 ? y : z", "y < 0 ? y : z + x"], "map": ["[3, 4].map(j, j + y)", "[3, 4].map(i, i * z)"],
+           "exists": ["[3, 4].exists(j, j == z && y == 2)", "[2].exists(i, i == y)"], "all": ["[3, 4].all(j, j > y || z == 0)"],
+           "filter": ["[3, 4, 5].filter(j, j > z && y == 2).size()"], "plain": ["y + z", "y"]}
+INNER_B = [["x", ["i", 9]], ["y", ["i", 2]], ["z", ["i", 3]]]
+
+
+def reenter_history(rng: random.Random):
+    """Re-entrancy: programs whose host function `probe`, while it is being called in the middle of an evaluation, builds
+    and/or evaluates ANOTHER program (its own environment; same thread, or another thread while this one waits), or the
+    same program with other bindings.  The outer evaluation must give what it gives alone with a plain constant function,
+    and the inner one what it gives alone.  Inner and outer expression are mostly of the same operator family (so that
+    whatever per-operator scratch state the runner keeps would collide)."""
+    ko = "C" if rng.random() < 0.85 else "I"
+    ops: List[Any] = [["E", ko, None, []]]
+    if rng.random() < 0.3:
+        ops.append(["E", "I" if ko == "C" else "C", None, []])
+    nenv = len(ops)
+    np_ = 0
+    evs = []
+    for fam, text in rng.sample(OUTER_T, 3):
+        r = rng.choice([0, 0, 1])
+        ifam = fam if rng.random() < 0.85 else rng.choice(sorted(INNER_T))
+        ki = "C" if rng.random() < 0.85 else "I"
+        sub: List[Any] = [["E", ki, None, []], ["P", 0, {"src": rng.choice(INNER_T[ifam])}], ["G", 0, 0], ["V", 0, INNER_B]]
+        if rng.random() < 0.25:
+            sub.append(["VS", [["x", ["i", rng.choice([3, 4])]]]])
+        extra = {"mode": "nested" if rng.random() < 0.7 else "thread", "ops": sub, "pre": rng.choice([0, 0, 3, 4])}
+        e = rng.randrange(nenv)
+        ops.append(["P", e, {"src": text.format(r=0)}])
+        ops.append(["G", e, np_, {"form": rng.choice(["dict", "dict", "list"]), "fns": [["probe", "reenter", r, extra]]}])
+        b = [["x", ["i", rng.choice([1, 1, 2])]]]
+        ops.append(["V", np_, b])
+        evs.append((np_, b))
+        if rng.random() < 0.5:
+            b2 = [["x", ["i", rng.choice([1, 2])]]]
+            ops.append(["V", np_, b2])
+            evs.append((np_, b2))
+        np_ += 1
+    for p, b in rng.sample(evs, min(2, len(evs))):
+        ops.append(["V", p, b])
+    return ops
+
+
+def plain_fns(fns):
+    """the same host functions without side activity: a `reenter` function is the constant it returns"""
+    if not fns:
+        return fns
+    return {"form": fns["form"], "fns": [[f[0], "const", f[2]] if f[1] == "reenter" else f for f in fns["fns"]]}
+
+
 def gen_cases(rng: random.Random, families: int, per_family: int):
     cases = []
     for _ in range(max(2, families * 2 // 3)):
         cases.append({"kind": "hist", "ops": alternation_history(rng)})
         cases.append({"kind": "hist", "ops": fn_history(rng)})
+    shapes = list(HEAVY_SHAPES)
+    rng.shuffle(shapes)
+    for i in range(max(3, families)):
+        cases.append({"kind": "hist", "ops": deep_history(rng, shapes[i % len(shapes)] if i % 4 != 3 else None)})
+        cases.append({"kind": "hist", "ops": reenter_history(rng)})
     for _ in range(families):
         fam = gen_family(rng)
         cases.append({"kind": "hist", "ops": probe_history(rng, fam, True)})
@@ -382,9 +482,28 @@ def index_history(ops, obs_model: Optional[List[str]] = None):
     return info
 
 
+def nested_refs(spec, obs):
+    """[(sub-history, index, [model, rich])] for every nested observation attached to the observation of a program-construction
+    or evaluate op whose program is described by `spec` (one `reenter` function per program is generated)"""
+    if spec is None or len(obs) < 3 or not spec.get("fns"):
+        return []
+    subs = [f[3].get("ops") or [] for f in spec["fns"]["fns"] if f[1] == "reenter" and len(f) > 3]
+    if len(subs) != 1:
+        return []
+    return [(subs[0], n[0], n[1:3]) for n in obs[2] if n[0] < len(subs[0])]
+
+
+def nested_alone_ops(spec, sub, j):
+    """the reference for the nested operation `sub[j]`: the sub-history up to it, alone in a fresh process; for ["VS", b]
+    (the outer program evaluating itself with other bindings from inside its own host function) the plain alone evaluation"""
+    if sub[j][0] == "VS":
+        return alone_ops(spec, sub[j][1])
+    return [o for o in sub[:j + 1] if o[0] != "VS"]
+
+
 def alone_ops(spec, bindings):
     """the same evaluation performed alone: one environment, one compile, one program, one evaluate"""
-    g = ["G", 0, 0] + ([spec["fns"]] if spec.get("fns") else [])
+    g = ["G", 0, 0] + ([plain_fns(spec["fns"])] if spec.get("fns") else [])
     if spec["ast_kind"] == spec["kind"]:
         ops = [["E", spec["kind"], spec["pkg"], spec["decls"]], ["P", 0, spec["expr"]], g]
     else:   # the tree was built by an environment of the other runner class: that environment is part of the evaluation
@@ -591,6 +710,7 @@ class C05(Prop):
     def __init__(self):
         self._hist: Dict[str, Any] = {}     # case_key -> [[model, rich], ...]
         self._alone: Dict[str, Any] = {}    # json(alone ops) -> [model, rich] of the last op
+        self._alone_jobs: Dict[str, Any] = {}   # json(alone ops) -> ops, for the jobs that were really run (not answered as a prefix)
         self._tier = "quick"
 
     # ---- generation ------------------------------------------------------------------------------
@@ -619,16 +739,31 @@ class C05(Prop):
         for c in todo:
             d = res[case_key(c)]
             self._hist[case_key(c)] = d.get("obs") or [["HARNESS-CRASH " + d.get("crash", ""), "HARNESS-CRASH"]]
-        alone: Dict[str, Any] = {}
+        need: Dict[str, Any] = {}
         for c in cases:
             for aops in self.alone_jobs_of(c):
                 k = json.dumps(aops)
                 if k not in self._alone:
-                    alone[k] = aops
+                    need[k] = aops
+        # an alone job that is a prefix of another one (program construction / the evaluation of it) is answered by the longer one
+        covered = set()
+        alone: Dict[str, Any] = {}
+        for k, aops in sorted(need.items(), key=lambda kv: -len(kv[1])):
+            if k in covered:
+                continue
+            alone[k] = aops
+            for m in range(1, len(aops)):
+                covered.add(json.dumps(aops[:m]))
         res = run_jobs([{"id": k, "ops": v} for k, v in alone.items()], timeout)
-        for k in alone:
+        for k, aops in alone.items():
             d = res[k]
-            self._alone[k] = (d.get("obs") or [["HARNESS-CRASH", "HARNESS-CRASH " + d.get("crash", "")]])[-1]
+            obs = d.get("obs")
+            if not obs or len(obs) != len(aops):
+                self._alone[k] = ["HARNESS-CRASH", "HARNESS-CRASH " + d.get("crash", "")]
+                continue
+            self._alone_jobs[k] = aops
+            for m in range(1, len(aops) + 1):
+                self._alone.setdefault(json.dumps(aops[:m]), obs[m - 1])
 
     def alone_jobs_of(self, c):
         obs = self._hist.get(case_key(c))
@@ -636,7 +771,9 @@ class C05(Prop):
             return []
         info = index_history(c["ops"], [o[0] for o in obs])
         out = []
-        for op, spec in zip(c["ops"], info):
+        for op, spec, o in zip(c["ops"], info, obs):
+            for sub, j, _ in nested_refs(spec, o):
+                out.append(nested_alone_ops(spec, sub, j))
             if spec is None:
                 continue
             if op[0] == "G":
@@ -688,6 +825,17 @@ class C05(Prop):
                 return f"op #{i} evaluate modified the caller's bindings {op[2]!r}"
             if spec is None:
                 continue
+            from .c05_worker import expr_text
+            for sub, j, got in nested_refs(spec, obs[i]):
+                if "!BINDINGS-MODIFIED" in got[1]:
+                    return f"op #{i}, nested op #{j} evaluate modified the caller's bindings {sub[j][-1]!r}"
+                al = self._alone.get(json.dumps(nested_alone_ops(spec, sub, j)))
+                if al is not None and al[1] != got[1]:
+                    what = (f"the program `{expr_text(spec['expr'])}` evaluated again with {sub[j][1]!r}" if sub[j][0] == "VS"
+                            else f"operation {sub[j]!r} of the sub-history {sub!r}")
+                    return (f"op #{i}: while `{expr_text(spec['expr'])}` [{spec['kind']} runner] was being "
+                            f"{'built' if op[0] == 'G' else 'evaluated'}, its host function performed {what}: that gave {got[1]!r}, "
+                            f"but {al[1]!r} alone in a fresh process")
             if op[0] == "G":
                 al = self._alone.get(json.dumps(alone_ops(spec, None)))
             elif op[0] == "V":
@@ -698,9 +846,15 @@ class C05(Prop):
                 continue
             if al[1] != obs[i][1]:
                 what = "program construction" if op[0] == "G" else f"evaluate({op[2]!r})"
-                from .c05_worker import expr_text
-                return (f"op #{i}: {what} of `{expr_text(spec['expr'])}` [{spec['kind']} runner, package={spec['pkg']!r}, "
-                        f"declarations={spec['decls']!r}] gave {obs[i][1]!r} in the history but {al[1]!r} alone in a fresh process")
+                side = ""
+                if spec.get("fns") and any(f[1] == "reenter" for f in spec["fns"]["fns"]):
+                    side = (" (in the history its host function performs other API operations while it is being called; alone it is "
+                            "the plain constant function)")
+                text = expr_text(spec['expr'])
+                if len(text) > 160:
+                    text = text[:70] + " ... " + text[-70:] + f" ({spec['expr']!r})"
+                return (f"op #{i}: {what} of `{text}` [{spec['kind']} runner, package={spec['pkg']!r}, "
+                        f"declarations={spec['decls']!r}] gave {obs[i][1]!r} in the history but {al[1]!r} alone in a fresh process{side}")
         return None
 
     def nontrivial(self, c, out):
@@ -716,7 +870,7 @@ class C05(Prop):
     def extra_checks(self, tier, rng):
         """the fork shortcut against real fresh interpreters: a sample of alone jobs re-run with a real spawn"""
         out = []
-        keys = sorted(self._alone)
+        keys = sorted(self._alone_jobs)
         rng.shuffle(keys)
         n = 5 if tier == "quick" else 60
         for k in keys[:n]:
